@@ -414,10 +414,10 @@ class SymMixin:
             return Sym(term, "timedelta")
         if op == "mod" and ka == "timedelta":
             return Sym(term, "timedelta")
-        if op == "add" and (ka in ("bytes", "str", "tuple") or kb in ("bytes", "str", "tuple")):
-            k = ka or kb
-            la = a.info.get("len") if isinstance(a, Sym) else len(a)
-            lb = b.info.get("len") if isinstance(b, Sym) else len(b)
+        if op == "add" and (ka in ("bytes", "str", "tuple", "bytearray") or kb in ("bytes", "str", "tuple", "bytearray")):
+            k = "bytearray" if "bytearray" in (ka, kb) else (ka or kb)
+            la = a.info.get("len") if isinstance(a, Sym) else (len(a) if isinstance(a, (bytes, str, tuple)) else None)
+            lb = b.info.get("len") if isinstance(b, Sym) else (len(b) if isinstance(b, (bytes, str, tuple)) else None)
             ln = self.binop("add", la, lb, run, node) if la is not None and lb is not None else None
             return Sym(term, k, len=ln)
         if op == "mod" and (ka == "str" or isinstance(a, str)):
@@ -598,7 +598,7 @@ class SymMixin:
         ln = v.info.get("len")
         if ln is not None:
             return ln
-        if k in ("bytes", "str", "tuple", "any", "range"):
+        if k in ("bytes", "str", "tuple", "any", "range", "bytearray"):
             return Sym(("len", v.term), "int", lo=0)
         if k == "none":
             self.throw("TypeError", "object of type 'NoneType' has no len()", node)
@@ -1072,8 +1072,13 @@ class SymMixin:
             return Sym(("str", ta), "str")
         if n == "bool":
             return self.truth(a[0], run, node)
+        if n == "bytearray":
+            v = a[0] if a else b""
+            return Sym(("bytearray", kterm(v), next(_ids)), "bytearray", len=v.info.get("len") if isinstance(v, Sym) else None, mutable=True)
         if n == "bytes":
             v = a[0] if a else None
+            if isinstance(v, Sym) and v.kind == "bytearray":
+                return Sym(("bytes", v.term), "bytes", len=v.info.get("len"))
             if isinstance(v, (tuple, ListV)):
                 items = list(v.items if isinstance(v, ListV) else v)
                 for x in items:
